@@ -72,7 +72,7 @@ class Rej:
 
 
 class Event:
-    __slots__ = ("kind", "node", "desc", "rejs", "loop", "callee", "tags", "fields", "qfields")
+    __slots__ = ("kind", "node", "desc", "rejs", "loop", "callee", "tags", "fields", "qfields", "late")
 
     def __init__(self, kind, node, desc, rejs=(), loop=False, callee=None, tags=(), fields=(), qfields=()):
         self.kind = kind  # 'M' | 'C'
@@ -84,6 +84,7 @@ class Event:
         self.tags = frozenset(tags)  # root tags of the objects written (M events)
         self.fields = frozenset(fields)
         self.qfields = frozenset(qfields)  # "Class.field" where the receiver's class is known
+        self.late = False  # synthetic: the callee of an M event can itself reject after writing
 
     def __repr__(self):
         return f"{self.kind}<{self.desc}>"
@@ -99,7 +100,7 @@ class Summary:
         self.dirty: list = []  # [(M event, C event)] inside this function
 
     def sig(self):
-        return (len(self.mods), len(self.rejs), len(self.fs), len(self.dirty), len(self.qmods))
+        return (len(self.mods), len(self.rejs), len(self.fs), len(self.qmods))
 
 
 def path_condition(node: ast.AST, stop) -> str:
@@ -165,6 +166,7 @@ class Effects:
         self._cfg_cache: dict[str, CFG] = {}
         self._tg_cache: dict[int, tuple] = {}
         self._prop_cache: dict[tuple, list] = {}
+        self._late: dict[int, Event] = {}
 
     # ------------------------------------------------------------------ freshness
     def fresh_locals(self, f: FuncInfo) -> set[str]:
@@ -294,6 +296,17 @@ class Effects:
                     changed = True
             if not changed and len(self._funcs) == len(self._sum):
                 break
+        # phase 2: non-atomicity propagates to callers (a call of a function that can reject after writing is
+        # itself a write followed by a possible rejection); only the `dirty` sets change here
+        for _ in range(10):
+            changed = False
+            for k, f in self._funcs.items():
+                before = len(self._sum[k].dirty)
+                self._sum[k].dirty = self.m_before_c(f)
+                if len(self._sum[k].dirty) != before:
+                    changed = True
+            if not changed:
+                break
         self._computed = True
 
     def _specialised(self, g: FuncInfo, recv_cls) -> FuncInfo:
@@ -317,13 +330,13 @@ class Effects:
 
     # ------------------------------------------------------------ one function
     def _call_targets(self, f, call: ast.Call):
-        k = id(call)
+        k = (f.key, id(call))  # specialised copies of a stdlib method share AST nodes
         if k not in self._tg_cache:
             self._tg_cache[k] = self.ty.callees(f, call, tier4=self.tier4)
         return self._tg_cache[k]
 
     def _props(self, f, attr: ast.Attribute, which: str):
-        k = (id(attr), which)
+        k = (f.key, id(attr), which)
         if k not in self._prop_cache:
             self._prop_cache[k] = self.ty.prop_targets(f, attr, which)
         return self._prop_cache[k]
@@ -708,8 +721,17 @@ class Effects:
                     if ev.kind == "C" and cur is not None:
                         key = (id(cur.node), id(ev.node), ev.desc)
                         found.setdefault(key, (cur, ev))
-                    elif ev.kind == "M" and cur is None:
-                        cur = ev
+                    elif ev.kind == "M":
+                        if cur is None:
+                            cur = ev
+                        g = ev.callee
+                        if g is not None and g is not f and self._sum.get(g.key) is not None and self._sum[g.key].dirty:
+                            lk = (f.key, id(ev.node), g.key)  # AST nodes are stable; Event objects are rebuilt each round
+                            late = self._late.get(lk)
+                            if late is None:
+                                late = self._late[lk] = Event("C", ev.node, f"call {g.local} may reject after writing", (), ev.loop, g)
+                                late.late = True
+                            found.setdefault((id(ev.node), id(ev.node), late.desc), (ev, late))
                 if (cur is None) != (OUT[i] is None) or (cur is not None and OUT[i] is None):
                     changed = True
                 if OUT[i] is None and cur is not None:
